@@ -963,7 +963,7 @@ def run_prop(pid, tier):
             if sig == "unknown":
                 ctx.note_inconclusive(what)
             elif sig.startswith("harness"):
-                raise HarnessError(what)
+                ctx.harness_gap(what)
             else:
                 ctx.violation(sig, what, {"witness": witness, "case": str(r["spec"])})
     ctx.extra["solver"] = {"z3": smt.z3_version()}
